@@ -379,7 +379,11 @@ func NewReader(r io.Reader, b int) (*Reader, error) {
 func (r *Reader) Read() (f feat.Feature, err error) {
 	line, err := r.r.ReadBytes('\n')
 	if err != nil {
-		return
+		// A final line without a terminator is still a line.
+		if err != io.EOF || len(bytes.TrimSpace(line)) == 0 {
+			return
+		}
+		err = nil
 	}
 	r.line++
 	line = bytes.TrimSpace(line)
